@@ -286,6 +286,9 @@ static void c14_run(void) {
 	X.hq_serial = g_chance(2, 3);
 	X.peer_total = g_chance(1, 5) ? 0 : (size_t)g_range(1, big ? 30000 : 9000);
 	X.peer_chunk = (size_t)g_range(1, 3000); X.peer_pause = (uint64_t)g_range(0, 120) * USEC; X.peer_closes = g_chance(2, 3);
+	// at most ~1500 arrivals per run: tens of thousands of one-byte arrivals exhaust the step budget (a false
+	// "livelock" of the machinery in the first thorough soak), and add nothing after the first few hundred
+	if (X.peer_total / X.peer_chunk > 1500) X.peer_chunk = X.peer_total / 1500 + 1;
 	X.peer_hangs_up = !X.is_read && g_chance(1, 4);
 	X.derived = g_chance(1, 6);
 	X.nops = g_range(1, 6);
@@ -388,6 +391,7 @@ static void c14_conv_run(void) {
 	X.hq_serial = g_chance(2, 3);
 	X.peer_total = g_chance(1, 6) ? 0 : (size_t)g_range(1, big ? 30000 : 9000);
 	X.peer_chunk = (size_t)g_range(1, 3000); X.peer_pause = (uint64_t)g_range(0, 120) * USEC;
+	if (X.peer_total / X.peer_chunk > 1500) X.peer_chunk = X.peer_total / 1500 + 1;
 	X.peer_closes = 1;                            // end of file completes whatever the reads still ask for
 	X.peer_hangs_up = !X.is_read && g_chance(1, 5);
 	X.nops = g_range(1, 5);
